@@ -73,6 +73,17 @@ CHECKS = {
    note=TB + 'Outcomes are steered through the log-likelihoods given to iterate(); sources/likelihoods are opaque tokens in the model.',
    technique='Lean 4 proof (inductive invariant of the run state machine over all event lists) + event-history correspondence',
    design='5/C07'),
+ 'C08': dict(
+   text='Theorems over the reals: every sampled full tensor is a unit six-vector that depends on the Gaussian draw only through its direction, '
+        'and normalisation commutes with every linear norm-preserving map of six-space (with rotation invariance of the i.i.d. Gaussian this is '
+        'uniformity on the 6-sphere); the random triad is orthonormal for non-degenerate draws; the six-vector of an orthonormal eigen-system '
+        'with unit-norm eigenvalues has unit norm; a sampled double-couple maps its axes to (1/sqrt2)a, 0, -(1/sqrt2)c (exact double-couple '
+        'pattern); the DC and CLVD eigenvalue patterns have unit norm and zero trace. Tie: random_mt, random_dc, random_clvd, random_sample '
+        'under replayed Gaussian draws (np.random patched) vs the executable model, sample counts. Partial: uniformity / Haar orientation / '
+        'independence are KS and correlation tests on 1e5..4e5 draws.',
+   note=TB + 'NumPy RNG assumed i.i.d. standard normal. A second Gaussian vector parallel to the first to within rounding gives an ill-conditioned triad (probability ~0; not modelled beyond exact parallelism).',
+   technique='Lean 4 proof (normalisation equivariance, cross-product identities, eigen-system algebra) + differential correspondence; statistical tests for the distributional half',
+   design='5/C08'),
  'C09': dict(
    text='Refinement proof for every history of batches (any sizes incl. 0, exact fits and several increments): the concrete store '
         '(pre-allocated array, fill index, growth loop) represents exactly the non-zero candidates of all batches in order, each with its '
